@@ -437,6 +437,11 @@ func (c *FCGIClient) Request(p map[string]string, req io.Reader) (resp *http.Res
 		if err != nil {
 			return
 		}
+		if resp.StatusCode < 100 || resp.StatusCode > 999 {
+			// net/http panics when asked to write such a status
+			err = errors.New("fcgi: invalid status code " + statusParts[0] + " from responder")
+			return
+		}
 		if len(statusParts) > 1 {
 			resp.Status = statusParts[1]
 		}
